@@ -3,6 +3,7 @@ from .. import core
 from . import _process_common as pc
 
 ASSUMPTIONS = [
+    'TLAPS (tla/proofs/ProcessProofs.tla, theorem Init0Holds, checked by tlapm on every run): for EVERY N, arithmetic and environment a returned isothermal model of Process.tla reports the initial feed temperature at every step, and every model starts at the stated amount, composition and temperature on the grid time[k] = k x step',
     "leg A: exact rationals with free heats/heat capacities/programme values",
     "leg B: latent heats, heat capacities and programme values are oracle values of the public Component / TemperatureProgram methods at the reported state; tolerance 1e-12 (1e-9 for the iso/non-iso twin)",
 ]
@@ -20,6 +21,10 @@ MANIFEST = {
     "note": "Scenarios sampled. Oracles: public Component.get_vaporisation_heat / get_specific_heat and TemperatureProgram.program.",
     "technique": "TLA+ state machine + TLC (exact rationals) + TLC trace validation of recorded process runs",
 }
+
+
+# proof modules about the specification, checked by tlapm on every run (started by the driver next to leg A)
+TLAPS = [("ProcessProofs.tla", ["Process.tla"])]
 
 
 def leg_a(ctx):
